@@ -376,7 +376,14 @@ pub mod details {
         ///  * It has to be ensured that the memory is initialized with
         ///    [`SafelyOverflowingIndexQueue::init()`].
         pub unsafe fn pop(&self) -> Option<u64> {
-            let mut read_position = self.read_position.load(Ordering::Relaxed);
+            ////////////////
+            // SYNC POINT R
+            ////////////////
+            // the producer advances the read position in the overflow case after it has
+            // published the write position; without acquire the consumer could observe the
+            // advanced read position together with an outdated write position, consider the
+            // queue non-empty and read a slot that was never written
+            let mut read_position = self.read_position.load(Ordering::Acquire);
             ////////////////
             // SYNC POINT W
             ////////////////
